@@ -33,7 +33,7 @@ def main():
         try:
             out = mod.run(ctx, build)
         except Exception:
-            out = common.Outcome()
+            out = common.Outcome.LAST or common.Outcome()
             out.corr_error = 'harness crashed: ' + traceback.format_exc()[-3000:]
         return common.finish(ctx, mod, build, gen_status, out, search=getattr(mod, 'search', None))
     finally:
